@@ -113,12 +113,14 @@ theorem backward_mod8 (t1 t2 : Ty) (v : Val) (pos pos' : Nat) (bits rest : Bits)
 /-- the zero bits `packBits` appends to fill the last octet are the continuation `rest` -/
 theorem decode_packBits (t : Ty) (bits : Bits) (w : Val)
     (h : ∀ rest fuel, bits.length + rest.length + 2 ≤ fuel →
-      dec t fuel ⟨0, bits ++ rest⟩ = .ok (w, ⟨0 + bits.length, rest⟩)) :
+      ∃ s, dec t fuel ⟨0, bits ++ rest⟩ = .ok (w, s)) :
     decode t (packBits bits) = .ok w := by
   unfold decode
   rw [X691.bytesToBits_packBits, X691.packBits_length, padToByte_length, Uper.padToByte_eq]
   have h8 : 8 * (8 * ((bits.length + 7) / 8) / 8) = 8 * ((bits.length + 7) / 8) := by omega
-  rw [h8, h _ _ (by simp only [List.length_replicate]; omega)]
+  obtain ⟨s, hs⟩ := h (List.replicate (8 * ((bits.length + 7) / 8) - bits.length) false)
+    (8 * ((bits.length + 7) / 8) + 2) (by simp only [List.length_replicate]; omega)
+  rw [h8, hs]
   rfl
 
 theorem forward_top (t1 t2 : Ty) (v : Val) (bytes : Bytes) (hx : Extends t1 t2)
@@ -130,7 +132,7 @@ theorem forward_top (t1 t2 : Ty) (v : Val) (bytes : Bytes) (hx : Extends t1 t2)
   rw [hE] at he
   cases he
   exact decode_packBits t1 bits _ (fun rest fuel hfu =>
-    forward_mod8 t1 t2 v 0 0 bits rest fuel hx hwf hd1 hd2 hns ht hf hs rfl hb hfu)
+    ⟨_, forward_mod8 t1 t2 v 0 0 bits rest fuel hx hwf hd1 hd2 hns ht hf hs rfl hb hfu⟩)
 
 theorem backward_top (t1 t2 : Ty) (v : Val) (bytes : Bytes) (hx : Extends t1 t2)
     (hwf : t2.wf = true) (hd1 : t1.defaultsOk = true) (hd2 : t2.defaultsOk = true)
@@ -141,7 +143,7 @@ theorem backward_top (t1 t2 : Ty) (v : Val) (bytes : Bytes) (hx : Extends t1 t2)
   rw [hE] at he
   cases he
   exact decode_packBits t2 bits _ (fun rest fuel hfu =>
-    backward_mod8 t1 t2 v 0 0 bits rest fuel hx hwf hd1 hd2 hns ht hf rfl hb hfu)
+    ⟨_, backward_mod8 t1 t2 v 0 0 bits rest fuel hx hwf hd1 hd2 hns ht hf rfl hb hfu⟩)
 
 end Asn1.Ext.PerX
 
